@@ -187,6 +187,23 @@ func c06Family(c *vlib.Ctx) []CfgLit {
 			}
 		}
 	}
+	// C: the two integers walked through their ranges (every boundary of every plausible narrower representation,
+	// every accepted status) on two base configurations
+	for _, base := range []CfgLit{
+		{Origins: []string{"https://a.b"}, Methods: []string{"PUT"}, RequestHeaders: []string{"X-A"}},
+		{Origins: []string{"https://a.b", "https://*.c.d:*"}, Credentialed: true, Methods: []string{"*"}, RequestHeaders: []string{"*"}, ResponseHeaders: []string{"X-R"}},
+	} {
+		for _, a := range []int{-1, 0, 1, 4, 5, 6, 9, 10, 99, 100, 127, 128, 255, 256, 999, 1000, 9999, 10000, 32767, 32768, 65535, 65536, 65537, 70000, 86399, 86400} {
+			l := base
+			l.MaxAge = a
+			out = append(out, l)
+		}
+		for st := 200; st <= 299; st++ {
+			l := base
+			l.Status, l.MaxAge = st, 86400
+			out = append(out, l)
+		}
+	}
 	return out
 }
 
